@@ -261,14 +261,15 @@ Definition flash_sto (m : mgr) (fw par : nat) (bsz : N) (maxl : nat) (moff : N) 
    [ffr] = built with force-full-r.  [None] = the seed computation 1 + 1001*N overflows u32 (panic in checked arithmetic). *)
 Definition mask (l : list N) : N := fold_left (fun acc r => N.lor acc (N.shiftl 1 r)) l 0.
 Definition PRBS_FUEL : nat := 4096.
-Definition updater_row (ffr : bool) (nn : nat) (mm : nat) : N :=
-  if Nat.ltb mm nn then N.shiftl 1 (N.of_nat mm) else
-  let cn := u32 (N.of_nat (mm - nn + 1)) in
+(* [cn] = coded fragment number (m - n + 1 as u32) *)
+Definition coded_row (ffr : bool) (nn : nat) (cn : N) : N :=
   let cm := N.of_nat nn in
   let md := cm + (if is_pow2 cm then 1 else 0) in
   let x0 := u32 (1 + u32 (1001 * cn)) in
   match (if ffr then full_fill PRBS_FUEL (N.to_nat (cm / 2)) x0 cm md [] else ref_fill PRBS_FUEL (N.to_nat (cm / 2)) x0 cm md) with
   | Some l => mask l | None => 0 end.
+Definition updater_row (ffr : bool) (nn : nat) (mm : nat) : N :=
+  if Nat.ltb mm nn then N.shiftl 1 (N.of_nat mm) else coded_row ffr nn (u32 (N.of_nat (mm - nn + 1))).
 Definition seed_overflows (nn : nat) (idx0 : N) : bool :=
   (N.of_nat nn <=? idx0) && (1 + u32 (1001 * u32 (idx0 - N.of_nat nn + 1)) =? 4294967296).
 
@@ -281,13 +282,18 @@ Definition handle_segment (checked ffr : bool) (m : mgr) (u : updater) (idx1 : N
   if negb (plen =? bs rd) then (d, u, RPanic) else                 (* assert_eq!(data.len(), blocksize) *)
   let idx0 := idx1 - 1 in
   (* the parity row is generated only on the stage-2 path of handle_block (not complete, not refused) *)
-  let enter := Nat.leb (n rd) (N.to_nat idx0) && Nat.eqb (l rd) 0 in
+  let enter := (N.of_nat (n rd) <=? idx0) && Nat.eqb (l rd) 0 in
   let l2 := if enter then missing rd else l rd in
   let refused := enter && (Nat.ltb 2048 l2 || Nat.ltb (u_maxl u) l2) in
   let reaches_row := negb (is_complete rd) && negb refused && negb (Nat.eqb l2 0) in
   if reaches_row && checked && seed_overflows (n rd) idx0 then (d, u, RPanic) else   (* 1 + 1001*N overflows u32 *)
   let I := flash_sto m (u_fw u) (u_par u) (bs rd) (u_maxl u) (u_moff u) in
-  match handle_block I (updater_row ffr (n rd)) (u_maxl u) 2048 rd (mkf d (u_cache u)) (N.to_nat idx0) payload with
+  (* indices are u32: a coded index is passed to the reconstructor model as the surrogate [n] (any index >= n behaves the
+     same there: it only selects the row), with the row of the true index *)
+  let coded := N.of_nat (n rd) <=? idx0 in
+  let row := if coded then coded_row ffr (n rd) (u32 (idx0 - N.of_nat (n rd) + 1)) else 0 in
+  let P := fun mm => if Nat.ltb mm (n rd) then N.shiftl 1 (N.of_nat mm) else row in
+  match handle_block I P (u_maxl u) 2048 rd (mkf d (u_cache u)) (if coded then n rd else N.to_nat idx0) payload with
   | (rd', s', o) =>
       let d' := f_dev s' in
       let u' := mkupd (u_fw u) (u_par u) rd' (u_maxl u) (u_moff u) (u_complete u) (f_cache s') in
